@@ -22,7 +22,7 @@ text = ('Each change compiles, keeps the pinned suite green (33 tests incl. doct
         'mid-stream); round 3 (-5/-6, again fresh sub-agents) - C02-6 (fragmented .slpp read added to the c02 oracle), C04-5 (end-of-stream\n'
         'close clause added to reader::read, owned by C04), C08-5 (whole-function ownership: every clause of parse_event__other/__splitter\n'
         'now counts for C08), C16-6 (C16 owns the tail clauses of read; zero-raw-length variant in the c16 oracle).  Everything else was caught\n'
-        'on the first pass (round 1: 25 of 40, round 2: 37 of 40, round 3: 36 of 40 on the first pass; 120 of 120 with the final machinery).\n\n'
+        'on the first pass (round 1: 26 of 40, round 2: 37 of 40, round 3: 36 of 40 on the first pass; 120 of 120 with the final machinery).\n\n'
         '| Seed | What it breaks | Outcome of the registered check(s) |\n|---|---|---|\n' + '\n'.join(rows) + '\n')
 p = os.path.join(V, 'DESIGN.md')
 s = open(p).read()
